@@ -268,6 +268,9 @@ class Executor:
         self.strict_unknown_calls = False
         self.consts_seen = {}
         self._divmod = {}
+        self._consts = {}
+        self._keep_locals = False
+        self._ax_done = {}
         self._ipdom = {}
         self.fork_sites = {}
         self._live = {}
@@ -448,19 +451,75 @@ class Executor:
 
     # ---------------------------------------------------------- solver
 
+    def consts_of(self, e):
+        """names of the uninterpreted constants of term e (cached by AST id)"""
+        k = e.get_id()
+        hit = self._consts.get(k)
+        if hit is not None:
+            return hit[1]
+        names = set()
+        todo = [e]
+        seen = set()
+        while todo:
+            x = todo.pop()
+            i = x.get_id()
+            if i in seen:
+                continue
+            seen.add(i)
+            if z3.is_const(x):
+                if x.decl().kind() == z3.Z3_OP_UNINTERPRETED:
+                    names.add(x.decl().name())
+            else:
+                todo.extend(x.children())
+        # definitional axioms (division lemma) tie fresh q/r to the dividend's constants
+        grew = True
+        while grew:
+            grew = False
+            for n in list(names):
+                a = self.axioms.get(n)
+                if a is not None and n not in self._ax_done.get(k, ()):
+                    self._ax_done.setdefault(k, set()).add(n)
+                    extra = self.consts_of(a) if a.get_id() != k else set()
+                    if not extra <= names:
+                        names |= extra
+                        grew = True
+        fs = frozenset(names)
+        self._consts[k] = (e, fs)       # keep e alive: z3 reuses the ids of collected ASTs
+        return fs
+
     def check(self, st, extra=()):
-        """satisfiability of pc + extra; returns 'sat' | 'unsat' | 'unknown'"""
-        conds = [c for c in extra]
-        # quick syntactic decisions
-        allc = []
-        for c in itertools.chain(st.pc, conds):
+        """satisfiability of pc + extra; returns 'sat' | 'unsat' | 'unknown'.
+        The path condition is satisfiable by construction (only feasible branches are followed), so only
+        the conjuncts in the cone of influence of `extra` (sharing constants, transitively) are sent."""
+        conds = []
+        for c in extra:
             c = z3.simplify(c) if not z3.is_true(c) and not z3.is_false(c) else c
             if z3.is_false(c):
                 return 'unsat'
             if not z3.is_true(c):
-                allc.append(c)
-        if not allc:
+                conds.append(c)
+        if not conds:
             return 'sat'
+        names = set()
+        for c in conds:
+            names |= self.consts_of(c)
+        pcs = [(c, self.consts_of(c)) for c in st.pc]
+        chosen = []
+        rest = pcs
+        grew = True
+        while grew:
+            grew = False
+            keep = []
+            for c, ns in rest:
+                if ns & names:
+                    chosen.append(c)
+                    if not ns <= names:
+                        names |= ns
+                    grew = True
+                else:
+                    keep.append((c, ns))
+            rest = keep
+        allc = conds + chosen
         t = time.time()
         s = self.solver
         s.push()
@@ -849,7 +908,12 @@ class Executor:
         # run the body in a scratch state (constants have no inputs)
         sub = State()
         sub.nfresh = 10 ** 6 + len(self.const_cache) * 1000
-        res = self.run_fn(fn, [], sub, single=True)
+        keep = self._keep_locals
+        self._keep_locals = True        # promoted constants return references to their own locals
+        try:
+            res = self.run_fn(fn, [], sub, single=True)
+        finally:
+            self._keep_locals = keep
         if len(res) != 1 or res[0].status != 'done':
             raise Inconclusive('constant body %s did not evaluate to one value' % key)
         v = res[0].result
@@ -1491,8 +1555,9 @@ class Executor:
     def finish_frame(self, st, value):
         fr = st.frames.pop()
         # free the frame's locals (keeps states small and lets equal states compare equal)
-        for n in fr.fn.locals:
-            st.cells.pop((fr.fid, n), None)
+        if not self._keep_locals:
+            for n in fr.fn.locals:
+                st.cells.pop((fr.fid, n), None)
         if fr.on_return is not None:
             fr.on_return(self, st, value)
             return
